@@ -1,4 +1,5 @@
 import Texel.Properties.C02
+import Texel.Proofs.Output
 import Mathlib.Tactic.Ring
 import Mathlib.Tactic.Linarith
 /-! # C03 — output coordinates are vector-tile pixel centres
@@ -92,6 +93,15 @@ theorem C03_pixel_size (g : Grid) (XSpan : Int) (hX : XSpan = 2 ^ g.depth * g.re
   unfold Grid.span
   rw [hX, ← mul_assoc, ← pow_add]
   congr 2; omega
+
+/-- **every coordinate `snapPolygonF` hands out on level `l` stands for a pixel of that level's grid**: indices in `[0, 2^l)`, for every ring
+of every polygon, after all clean-up and assembly (the coordinate itself is `Grid.centroid g l q`, related to the ideal centre above) -/
+theorem C03_output_is_pixel_of_level (g : Grid) (hres : 0 < g.res) (rings : List (List Pt)) (levels : List Nat) (cfg : Config)
+    (res : List (Nat × Array Poly)) (h : snapPolygonF g rings levels cfg = .ok res)
+    (hlev : ∀ l ∈ levels, l ≤ g.depth ∧ l ≠ 0)
+    (l : Nat) (polys : Array Poly) (hm : (l, polys) ∈ res) (pg : Poly) (hpg : pg ∈ polys) (r : Array P) (hr : r ∈ pg) (v : P) (hv : v ∈ r) :
+    ∃ q : Quad, v = q.toP ∧ q.x < 2 ^ l ∧ q.y < 2 ^ l :=
+  snapPolygonF_vertex_in_range g hres rings levels cfg res h hlev l polys hm pg hpg r hr v hv
 
 -- non-vacuity: RD-like round grid (res 4, depth 4): centre of pixel (5,3) on level 3 is 8·5+4 = 44
 example : (Grid.centroid ⟨0, 0, 4, 4⟩ 3 ⟨5, 3⟩) = ⟨44, 28⟩ := by decide
